@@ -40,7 +40,7 @@ func init() {
 			delete(m.writers, "w:"+concreteStr(args[0], "vClearWritten name"))
 			return nil
 		},
-		"vRepeat":   func(m *machine, fr *frame, args []value) value { return int64(1) },
+		"vRepeat": func(m *machine, fr *frame, args []value) value { return int64(1) },
 		"vMatches": func(m *machine, fr *frame, args []value) value {
 			pat := concreteStr(args[1], "vMatches pattern")
 			d := dualFor(pat)
